@@ -247,6 +247,10 @@ struct Ctx {
 	Failure fail;
 	uint64_t nt_bulk = 0;   // non-trivial distinct cases counted in bulk (exhaustive loops)
 	bool excl(const std::string &c) const { return exclude.count(c) != 0; }
+	// shrinking budget: once a failure is on record, at most `shrink_budget` further property-body
+	// invocations are spent on shrinking; afterwards bodies return at once so that rapidcheck stops
+	uint64_t shrink_budget = 400, shrink_used = 0;
+	bool shrink_exhausted() { return fail.have && ++shrink_used > shrink_budget; }
 	std::string getopt(const std::string &k, const std::string &d = "") const { auto i = opt.find(k); return i == opt.end() ? d : i->second; }
 	long getoptl(const std::string &k, long d) const { auto i = opt.find(k); return i == opt.end() ? d : atol(i->second.c_str()); }
 
